@@ -74,10 +74,28 @@ fn lists(tier: Tier) -> Vec<Option<Vec<u8>>> {
             }
         }
     }
+    // ids in a value relation to a held one (5: the first 8 bytes of credential 0's id, 6: that id
+    // with one more byte, 7: the empty id) – each names no credential
+    for rel in 5u8..8 {
+        v.push(Some(vec![rel]));
+        for k in 0..4u8 {
+            v.push(Some(if (rel + k) % 2 == 0 { vec![rel, k] } else { vec![k, rel] }));
+        }
+    }
     v
 }
 fn list_ids(l: &Option<Vec<u8>>) -> Option<Vec<Vec<u8>>> {
-    l.as_ref().map(|l| l.iter().map(|&i| if i == 4 { ident(UNKNOWN) } else { ident(i) }).collect())
+    l.as_ref().map(|l| {
+        l.iter()
+            .map(|&i| match i {
+                0..=3 => ident(i),
+                5 => ident(0)[..8].to_vec(),
+                6 => [ident(0), vec![0x00]].concat(),
+                7 => vec![],
+                _ => ident(UNKNOWN),
+            })
+            .collect()
+    })
 }
 fn content_items(content: u8) -> Vec<Passkey> {
     universe().into_iter().enumerate().filter(|(i, _)| content & (1 << i) != 0).map(|(_, p)| p).collect()
@@ -425,7 +443,7 @@ pub fn run(ctx: &Ctx) -> Result<Run, String> {
     let n = cs.len() as u64 + csched;
     let mut run = Run::from_stats(
         "model_checking",
-        "universe of 4 credentials (2 RPs x 2, equal user handles across RPs): all 16 store contents x RP in {a, b, RP without credentials, a in another letter case, a with a trailing dot} x lists {absent, empty, sub-lists of the 4 ids + 1 unknown id (size <= 2 in both orders quick, all 31 thorough)} x transports hints on the descriptors {none, disjoint from the authenticator's, overlapping, mixed, empty} x listing order {newest, oldest first} for get_assertion (allow list) and make_credential (exclude list) on the real Authenticator over the contract store; and the same contents/lists/RPs against find_credentials of MemoryStore, Option<Passkey> and their four lock wrappers (wrappers compared with the store they wrap); plus every interleaving of a registration whose exclude list names a held credential with a concurrent assertion over Arc<Mutex<_>> and Arc<RwLock<_>> (must be refused in every schedule). Non-trivial = distinct case with a non-empty store",
+        "universe of 4 credentials (2 RPs x 2, equal user handles across RPs): all 16 store contents x RP in {a, b, RP without credentials, a in another letter case, a with a trailing dot} x lists {absent, empty, sub-lists of the 4 ids + 1 unknown id (size <= 2 in both orders quick, all 31 thorough), and ids in a value relation to a held id (a strict prefix of it, it plus one byte, the empty id) alone and next to each of the 4 ids} x transports hints on the descriptors {none, disjoint from the authenticator's, overlapping, mixed, empty} x listing order {newest, oldest first} for get_assertion (allow list) and make_credential (exclude list) on the real Authenticator over the contract store; and the same contents/lists/RPs against find_credentials of MemoryStore, Option<Passkey> and their four lock wrappers (wrappers compared with the store they wrap); plus every interleaving of a registration whose exclude list names a held credential with a concurrent assertion over Arc<Mutex<_>> and Arc<RwLock<_>> (must be refused in every schedule). Non-trivial = distinct case with a non-empty store",
         true,
         stats,
     );
